@@ -67,7 +67,7 @@ def shards(tier):
 
 def floors(tier):
     f = {"histories": 400, "operations": 5000, "probes_compared": 30000, "objects_probed_after_5plus_later_ops": 1000,
-         "versioned_create_without_id": 50, "untouched_twins_probed_later": 200, "named_type_verdicts": 5000}
+         "versioned_create_without_id": 50, "untouched_twins_probed_later": 200, "named_type_verdicts": 5000, "versioned_create_reusing_a_name": 60}
     for op in ("redefine", "redefine_many", "remove", "extend_override", "extend_typechecker", "extend_nochange", "create",
                "create_version", "extend_version", "create_default_types", "validator_types", "checks", "cls_checks", "formats_subset", "validator_twins", "validator_named_types"):
         f["op:" + op] = 150
@@ -418,6 +418,11 @@ def run_history(rec, ops, base_draft):
                         meta[idk] = ("http://vf.example/meta/future-%d" % (op["r"] % 3)) if rng.random() < 0.6 else \
                             "http://vf.example/meta/%d/%d" % (op["r"], n)
                         kwargs["version"] = "vf%d_%d" % (op["r"], n)
+                        if rng.random() < 0.4:
+                            # a version NAME that is already taken (a bundled draft's, or one an earlier operation used): the
+                            # new class claims the name, and nothing else - every metaschema id registered so far stays
+                            kwargs["version"] = rng.choice(["draft3", "draft4", "draft6", "draft7", "vf-shared-a", "vf-shared-b"])
+                            rec.count("versioned_create_reusing_a_name")
                         if rng.random() < 0.3:
                             # a hand-written metaschema: no id of its own, `$schema` says which dialect IT is written in
                             # (per the class's own ID_OF it has no id, so it claims no registry entry)
